@@ -3,19 +3,17 @@ The x86 back-end model satisfies the `FpRefines` interface (so every GF(p²) the
 agreement theorem applies to it), with representation domain `a < 2^B` and abstraction
 `xval a = a · R⁻¹ ∈ ZMod q`.
 
-Proved here from the `% q` specifications of SqiProofs.GfX86: zero, one, add, sub, neg, mul, half, isZero,
-isEqual, select, cswap, setSmall, encode.  Taken as explicit hypotheses (`X86Cited`):
-  * `sqr`  — `SquareOK P` (proved at level 1; FALSE at levels 3 and 5 on the pinned tree: lost carry);
+Proved here from the `% q` specifications of SqiProofs.GfX86: zero, one, add, sub, neg, mul, sqr, half, isZero,
+isEqual, select, cswap, setSmall, encode, and sqrt (exponent chain = a^((q+1)/4), SqiProofs.GfX86Sqrt).  Taken as explicit hypotheses (`X86Cited`):
   * `inv`, `isSquare` — correctness of Pornin's binary GCD (outer-iteration invariant proved in
     SqiProofs.GfX86Inv, convergence within the fixed iteration counts cited from eprint 2020/972);
-  * `sqrt` — that the exponent chain computes `a^((q+1)/4)` (the range / parity / flag facts are proved in
-    `sqrt_spec`).
 -/
 import Mathlib.Data.ZMod.Basic
 import Mathlib.Tactic.Ring
 import Mathlib.Tactic.FieldSimp
 import Mathlib.Tactic.LinearCombination
 import SqiProofs.GfX86
+import SqiProofs.GfX86Sqrt
 import SqiProofs.GfFp2
 
 set_option linter.unusedSectionVars false
@@ -57,11 +55,9 @@ theorem xval_zero_iff (hP : IsLvl P) {a : Nat} : xval P a = 0 ↔ a % P.q = 0 :=
 
 /-- the hypotheses that are cited / not proved for the x86 model (see the file header) -/
 structure X86Cited (P : X86Params) [Fact P.q.Prime] : Prop where
-  squareOK : SquareOK P
   inv : ∀ a, a < 2 ^ P.B → (invert P a).1 < 2 ^ P.B ∧ xval P (invert P a).1 = (xval P a)⁻¹
   isSquare : ∀ a, a < 2 ^ P.B → (fp_is_square P a = 0 ∨ fp_is_square P a = T32) ∧
     (fp_is_square P a = T32 ↔ IsSquare (xval P a))
-  sqrtRoot : ∀ a, a < 2 ^ P.B → IsSquare (xval P a) → xval P (sqrt P a).1 * xval P (sqrt P a).1 = xval P a
 
 theorem x86_refines (hP : IsLvl P) (hc : X86Cited P) :
     FpRefines (X86.ops P) P.q (fun a => a < 2 ^ P.B) (xval P) where
@@ -106,7 +102,7 @@ theorem x86_refines (hP : IsLvl P) (hc : X86Cited P) :
     unfold xval; field_simp; linear_combination this
   sqr := by
     intro a ha
-    obtain ⟨h1, h2⟩ := hc.squareOK a ha
+    obtain ⟨h1, h2⟩ := squareOK P hP a ha
     refine ⟨h1, ?_⟩
     show xval P (square P a) = xval P a * xval P a
     have := cast_eq_of_mod_eq h2
@@ -124,8 +120,8 @@ theorem x86_refines (hP : IsLvl P) (hc : X86Cited P) :
   inv := fun {a} ha => hc.inv a ha
   sqrt := by
     intro a ha
-    obtain ⟨h1, h2, _, _⟩ := sqrt_spec P hP hc.squareOK a ha
-    refine ⟨h1, ?_, hc.sqrtRoot a ha⟩
+    obtain ⟨h1, h2, _, _⟩ := sqrt_spec P hP (squareOK P hP) a ha
+    refine ⟨h1, ?_, fun hs => sqrt_root P hP ha hs⟩
     show (xval P (sqrt P a).1).val % 2 = 0
     have hR : (sqrt P a).1 < P.R := lt_trans h1 (by rcases hP with rfl | rfl | rfl <;> decide)
     obtain ⟨e1, e2⟩ := encode_spec P hP _ hR
